@@ -66,6 +66,10 @@ def guard_reach(chk, fname, J, Jref, where):
            not bad, '; '.join(bad[:2]), where, key=f'R07.8|{fname}', method='corner evaluation of the extracted guard expressions (monomials: extremal at corners); witness point reported')
 
 
+TECHNIQUE += '; numpy tolerance tests (isclose) as their defining comparisons, entered on both sides by threshold-directed sampling; strided-memoryview lint on the array helpers'
+
+EXPLANATION += ' R07.11 the array helpers accept contiguous buffers only where they walk a raw pointer (scalar call == array helper element for element).'
+
 def run(chk):
     repo = Repo(chk.repo)
     mm = repo.by_path('TidalPy/rheology/models.pyx')
